@@ -28,7 +28,7 @@ pub fn plan(tier: &str, stage: usize) -> Plan {
   let (full, k) = match (tier, stage) {
     ("quick", 0) => (false, 2),
     ("quick", _) => (true, 1),
-    (_, 0) => (true, 2),
+    (_, 0) => (true, 3),
     (_, _) => (false, 3),
   };
   let alpha = gen::alphabet(full);
